@@ -1,3 +1,5 @@
+//go:build go1.23
+
 package result
 
 // C12 shared part (identical copy in every package that has a C12 harness):
